@@ -379,6 +379,7 @@ def normalise(run):
     tid_owner = {}
     cur_spawn = None
     h_cur = None
+    last_h = None
     pending9 = {}
     batches = []
     info = {"main": main_tid, "h": h_tid, "diverged": False, "steps": [], "stray": 0, "abort": False,
@@ -513,6 +514,7 @@ def normalise(run):
             t = threads.get(e["k"])
             if t:
                 h_cur = t.k
+                last_h = t.k
                 t.op = "join" if ev == "join_call" else "drop"
                 emit(t, {"e": "call", "op": t.op}, e)
         elif ev == "join_ret":
@@ -528,7 +530,13 @@ def normalise(run):
                 emit(t, {"e": "ret", "op": "drop", "res": "-", "val_ok": True, "eff_ok": True, "hb": False}, e)
             h_cur = None
         elif ev == "vdrop":
-            t = threads.get(e["k"])
+            if e.get("zst"):
+                # a zero-sized value cannot say whose it is: the task that runs the destructor does -
+                # the thread itself, or the handle owner (during / right after its operation on it)
+                kk = tid_owner.get(tid) if tid != h_tid else (h_cur if h_cur is not None else last_h)
+                t = threads.get(kk)
+            else:
+                t = threads.get(e["k"])
             if t:
                 emit(t, {"e": "vdrop"}, e)
         elif ev == "xload":
@@ -639,7 +647,7 @@ def normalise(run):
                      "whole": s["whole"], "disarmed": s["disarmed"]})
         for r in t.h_unmaps:
             emit(t, {"e": "rel", "r": "stack", "by": "H"})
-        emit(t, {"e": "end", "kept": t.spawn_ok is True and t.op is None, "sys": t.stack_known, "dv": t.ty == "dv",
+        emit(t, {"e": "end", "kept": t.spawn_ok is True and t.op is None, "sys": t.stack_known, "dv": t.ty in ("dv", "zd", "a64d", "arrd"),
                  "quiet": quiet})
     return order, batches, info
 
